@@ -22,19 +22,19 @@ func init() {
 
 	register(&core.Rule{ID: "C06.1", Prop: "C06", MinSites: 7,
 		Desc: "every Action returned by an EventHandler callback is examined, and the Shutdown case leads to ErrEngineShutdown (loop side), to `return nil` before anything is started (OnBoot in run) or to an exit task (OnTick)",
-		Run: runC06_1})
+		Run:  runC06_1})
 	register(&core.Rule{ID: "C06.2", Prop: "C06", MinSites: 3,
 		Desc: "run/orbit: every return after Polling passes closeConns() and then engine.shutdown(); rotate: engine.shutdown()",
-		Run: func(c *core.Ctx) { runAfterPolling(c, "C06.2") }})
+		Run:  func(c *core.Ctx) { runAfterPolling(c, "C06.2") }})
 	register(&core.Rule{ID: "C06.3", Prop: "C06", MinSites: 10,
 		Desc: "stop sequence: signal ≺ OnShutdown ≺ exit tasks to all loops ≺ concurrency.Wait() ≺ closeEventLoops() ≺ inShutdown.Store(true) on every path of engine.stop and Client.Stop; inShutdown is stored only there",
-		Run: runC06_3})
+		Run:  runC06_3})
 	register(&core.Rule{ID: "C06.4", Prop: "C06", MinSites: 3,
 		Desc: "run(): OnBoot is handled before eng.start and its Shutdown case returns nil; `defer eng.stop` is registered only after start succeeded; the start-failure path calls closeEventLoops",
-		Run: runC06_4})
+		Run:  runC06_4})
 	register(&core.Rule{ID: "C06.6", Prop: "C06", MinSites: 3,
 		Desc: "OnShutdown has exactly two call sites (engine.stop, Client.Stop), each executed exactly once on every path and not inside a loop",
-		Run: runC06_6})
+		Run:  runC06_6})
 }
 
 func runC06_1(c *core.Ctx) {
